@@ -401,11 +401,14 @@ def treeinfo_canonical(sym, vperm, iperm, cperm, dumps, name_set=0):
     imgs = [sym.str("img%d" % i, 2, minlen=1, alphabet=[(97, 122)]) for i in range(3)]
     sums = [sym.str("sum%d" % i, 2, minlen=1, alphabet="hexlower") for i in range(3)]
     vspec = [("Server", "Server", None, "variant"), ("Client", "Client", None, "variant"), ("HA", "Server-HA", "Server", "addon")]
+    if name_set == 3:
+        # two top-level variants that share their id and differ in their UID (the optional trees of two base variants), filed by UID
+        vspec = [("optional", "Server-optional", None, "optional"), ("optional", "Client-optional", None, "optional"), ("Server", "Server", None, "variant")]
     # names whose plain string order differs from "natural" orders: digit runs of different width, zero padding, upper/lower case
     ispec = [[("x86_64", "boot.iso"), ("x86_64", "Kernel"), ("xen", "kernel")], [("x86_64", "initrd7"), ("x86_64", "initrd07"), ("x86_64", "initrd10")],
-             [("x86_64", "boot.iso"), ("x86_64", "Kernel"), ("xen", "kernel")]][name_set]
+             [("x86_64", "boot.iso"), ("x86_64", "Kernel"), ("xen", "kernel")], [("x86_64", "boot.iso"), ("x86_64", "Kernel"), ("xen", "kernel")]][name_set]
     cspec = [["images/boot.iso", "Images/efiboot.img", "LiveOS/squashfs.img"], ["images/disc2.iso", "images/disc10.iso", "images/disc02.iso"],
-             ["images/boot.iso", "./images/boot.iso", "images//boot.iso"]][name_set]          # 2: three spellings of one path
+             ["images/boot.iso", "./images/boot.iso", "images//boot.iso"], ["images/boot.iso", "Images/efiboot.img", "LiveOS/squashfs.img"]][name_set]          # 2: three spellings of one path
 
     def build(vo, io_, co, platforms):
         ti = T.TreeInfo()
@@ -430,7 +433,10 @@ def treeinfo_canonical(sym, vperm, iperm, cperm, dumps, name_set=0):
                 v.paths.packages = uid + "/Packages"
                 objs[uid] = v
                 if parent is None:
-                    ti.variants.add(v)
+                    if vid != uid:
+                        ti.variants.add(v, variant_id=uid)
+                    else:
+                        ti.variants.add(v)
                 else:
                     objs[parent].add(v)
             pending = rest
@@ -482,6 +488,7 @@ def jobs(tier, seed):
         out.append({"harness": "treeinfo_canonical", "params": {"vperm": PERMS3[pi], "iperm": PERMS3[(pi + 2) % 6], "cperm": PERMS3[(pi + 4) % 6], "dumps": 2}})
         out.append({"harness": "treeinfo_canonical", "params": {"vperm": PERMS3[pi], "iperm": PERMS3[(pi + 1) % 6], "cperm": PERMS3[(pi + 3) % 6], "dumps": 2, "name_set": 1}})
         out.append({"harness": "treeinfo_canonical", "params": {"vperm": PERMS3[pi], "iperm": PERMS3[(pi + 1) % 6], "cperm": PERMS3[(pi + 5) % 6], "dumps": 2, "name_set": 2}})
+        out.append({"harness": "treeinfo_canonical", "params": {"vperm": [[1, 0, 2], [2, 1, 0], [1, 2, 0]][pi % 3], "iperm": PERMS3[pi], "cperm": PERMS3[(pi + 2) % 6], "dumps": 1, "name_set": 3}})
     for other_first in (False, True):
         out.append({"harness": "images_caller_lists", "params": {"other_first": other_first}})
     for primed_by in ("dump", "load"):
